@@ -1,25 +1,435 @@
-//! C27 — not built yet (stub).
-use crate::proto::Driver;
+//! C27 — browser persistence survives a reload at any moment.
+//!
+//! The browser crate cannot be linked into this harness (it needs `wasm-bindgen`, `web-sys`,
+//! …).  `../harness-wasm` is a separate crate that `#[path]`-includes
+//! `/repo/searchlite-wasm/src/wasm.rs` **unmodified** and resolves its `wasm_bindgen::`,
+//! `js_sys::`, `web_sys::`, `wasm_bindgen_futures::`, `serde_wasm_bindgen::` paths through
+//! API-compatible host shims (simulated IndexedDB + harness-driven executor).  This module
+//! builds that crate (`slw`), feeds it one case per process and translates what it observed.
+//!
+//! * `commit` cases — short add/commit sequences through `Searchlite::{init, add_documents,
+//!   commit}` under many schedules; the page is closed after every step; every distinct
+//!   stored image is reopened with `Searchlite::init` + a match-all search.
+//!   **Finder** (implementation alone): the reopened index opens and holds the contents of a
+//!   commit that had started; every commit whose promise had resolved is included.
+//!   **Correspondence**: `SL.Idb.recover` on every distinct (abstract) image vs the real
+//!   reopen; the FIFO run of `SL.Idb`'s program model vs the completion log of the real run
+//!   under the specified transaction order; the monitored hypothesis `SL.Idb.ordered` on the
+//!   real completion logs (`ordered ⇒ every close image reopens`).
+//! * `storage` cases — scripts of `JsStorage`/`JsFile` operations interleaved with scheduler
+//!   choices; after every item the stored image, the open transactions, the runnable tasks
+//!   and the state of every `flush()` are compared with `SL.Idb.sysStep`.
+use crate::proto::{verif_root, Driver};
 use crate::rng::Rng;
 use crate::summary::Summary;
+use crate::util::hex;
 use crate::{Prop, Tier};
 use serde_json::{json, Value};
+use std::io::Write;
+use std::process::{Command, Stdio};
+use std::sync::OnceLock;
 
-pub struct Stub;
-pub static P: Stub = Stub;
+pub struct C27;
+pub static P: C27 = C27;
 
-impl Prop for Stub {
+const WORDS: [&str; 8] = ["rust", "search", "engine", "fast", "lite", "index", "wasm", "browser"];
+
+fn slw_dir() -> String {
+  format!("{}/harness-wasm", verif_root())
+}
+
+/// build `slw` once per process; `Err` carries the compiler output
+fn slw_binary() -> &'static Result<String, String> {
+  static BIN: OnceLock<Result<String, String>> = OnceLock::new();
+  BIN.get_or_init(|| {
+    let dir = slw_dir();
+    let out = Command::new("cargo")
+      .args(["build", "--offline"])
+      .current_dir(&dir)
+      .env("CARGO_NET_OFFLINE", "true")
+      .env_remove("CARGO_TARGET_DIR")
+      .env_remove("RUSTFLAGS")
+      .output();
+    match out {
+      Ok(o) if o.status.success() => Ok(format!("{dir}/target/debug/slw")),
+      Ok(o) => {
+        let txt = String::from_utf8_lossy(&o.stderr).to_string();
+        let errs: Vec<&str> = txt.lines().filter(|l| l.starts_with("error")).take(8).collect();
+        Err(format!("cargo build in {dir} failed: {}", errs.join("; ")))
+      }
+      Err(e) => Err(format!("cannot run cargo in {dir}: {e}")),
+    }
+  })
+}
+
+fn run_slw(case: &Value) -> Result<Value, String> {
+  let bin = slw_binary().clone()?;
+  let mut child = Command::new(&bin).stdin(Stdio::piped()).stdout(Stdio::piped()).stderr(Stdio::null()).spawn().map_err(|e| format!("spawn slw: {e}"))?;
+  child.stdin.take().unwrap().write_all(case.to_string().as_bytes()).map_err(|e| format!("slw stdin: {e}"))?;
+  let out = child.wait_with_output().map_err(|e| format!("slw wait: {e}"))?;
+  let txt = String::from_utf8_lossy(&out.stdout);
+  let v: Value = serde_json::from_str(txt.trim()).map_err(|e| format!("slw output: {e}: {}", txt.chars().take(300).collect::<String>()))?;
+  if v["ok"] != json!(true) {
+    return Err(format!("slw: {}", v["error"]));
+  }
+  Ok(v)
+}
+
+/// the abstract program of a commit case, as `SL.Idb.Commit`s (see `harness-wasm/src/commit.rs`
+/// `abstract_file`): manifest version k = [k], file j of commit k = path 2+5(k-1)+j, data [k, j];
+/// log snapshots [9,1] (operations), [9,2] (with commit marker), [9,0] (truncated)
+fn abstract_commits(n: usize) -> Value {
+  let mut cs = vec![json!({"files": [], "manifest": [0]})];
+  for k in 1..=n {
+    let files: Vec<Value> = (0..5).map(|j| json!([2 + 5 * (k - 1) + j, [k, j]])).collect();
+    cs.push(json!({"pre": [[9, 1]], "files": files, "manifest": [k], "post": [[9, 2], [9, 0]]}));
+  }
+  json!(cs)
+}
+
+fn gen_commit(rng: &mut Rng, tier: Tier) -> Value {
+  let ncommits = match tier {
+    Tier::Quick => 1 + rng.below(2),
+    Tier::Thorough => 1 + rng.below(3),
+  };
+  let mut commits = Vec::new();
+  for k in 0..ncommits {
+    let nd = 1 + rng.below(3);
+    let docs: Vec<Value> = (0..nd)
+      .map(|_| {
+        // small id space so that later commits overwrite earlier documents
+        let id = format!("d{}", rng.below(4));
+        let n = 1 + rng.below(3);
+        let body: Vec<&str> = (0..n).map(|_| *rng.pick(&WORDS)).collect();
+        json!({"_id": id, "body": format!("{} c{}", body.join(" "), k + 1)})
+      })
+      .collect();
+    // one id per commit at most once (the last one wins inside a batch anyway; keep it simple)
+    let mut seen = std::collections::BTreeSet::new();
+    let docs: Vec<Value> = docs.into_iter().rev().filter(|d| seen.insert(d["_id"].as_str().unwrap().to_string())).collect();
+    commits.push(json!(docs));
+  }
+  json!({
+    "kind": "commit", "seed": rng.next() % 1_000_000, "commits": commits,
+    "schedules": tier.pick(170, 1250), "spec_runs": 1, "yield_after_add": rng.chance(2, 3),
+  })
+}
+
+fn gen_storage(rng: &mut Rng, tier: Tier) -> Value {
+  let n = tier.pick(40, 70);
+  let mut items: Vec<Value> = Vec::new();
+  let mut open: Vec<u64> = Vec::new();
+  let bytes = |rng: &mut Rng| -> String {
+    let n = 1 + rng.below(3);
+    hex(&(0..n).map(|_| rng.below(250) as u8 + 1).collect::<Vec<u8>>())
+  };
+  let with_remove = rng.chance(1, 3);
+  for _ in 0..n {
+    let r = rng.below(100);
+    let p = rng.below(3) as u64;
+    if r < 38 {
+      items.push(json!({"op": "sched", "k": rng.below(8)}));
+    } else if r < 52 {
+      items.push(json!({"op": if rng.chance(1, 4) { "atomic_write" } else { "write_all" }, "p": p, "d": bytes(rng)}));
+    } else if r < 60 {
+      let h = rng.below(3) as u64;
+      if !open.contains(&h) {
+        open.push(h);
+        items.push(json!({"op": if rng.chance(1, 2) { "open_write" } else { "open_append" }, "h": h, "p": p}));
+      }
+    } else if r < 90 && !open.is_empty() {
+      let h = *rng.pick(&open);
+      match rng.below(10) {
+        0..=3 => items.push(json!({"op": "write", "h": h, "d": bytes(rng)})),
+        4 => items.push(json!({"op": "flush", "h": h})),
+        5..=6 => items.push(json!({"op": "sync", "h": h})),
+        7 => items.push(json!({"op": "set_len", "h": h, "n": rng.below(5)})),
+        8 => items.push(json!({"op": "seek", "h": h, "n": rng.below(4)})),
+        _ => {
+          open.retain(|x| *x != h);
+          items.push(json!({"op": "drop", "h": h}));
+        }
+      }
+    } else if r < 96 {
+      items.push(json!({"op": "flush_storage"}));
+    } else if with_remove {
+      items.push(json!({"op": "remove", "p": p}));
+    }
+  }
+  // drain: enough scheduler steps for everything that is still queued
+  for _ in 0..30 {
+    items.push(json!({"op": "sched", "k": rng.below(4)}));
+  }
+  json!({"kind": "storage", "order": if rng.chance(1, 5) { "spec" } else { "relaxed" }, "items": items})
+}
+
+impl C27 {
+  fn run_storage(&self, drv: &mut Driver, case: &Value, s: &mut Summary) {
+    let out = match run_slw(case) {
+      Ok(o) => o,
+      Err(e) => {
+        s.case(case, false);
+        s.disagree("slw.run", case, json!(e), json!(null));
+        return;
+      }
+    };
+    let obs = out["obs"].as_array().cloned().unwrap_or_default();
+    let labels: Vec<Value> = obs.iter().map(|o| o["label"].clone()).collect();
+    let completes = labels.iter().filter(|l| l["op"] == "complete").count();
+    let flushes_done = obs.last().map(|o| o["flushes"].as_array().map(|f| f.iter().filter(|x| x[0] == json!(true)).count()).unwrap_or(0)).unwrap_or(0);
+    s.case(case, completes >= 2 && flushes_done >= 1);
+    s.add("storage.items", labels.len() as u64);
+    s.add("storage.sched_steps", labels.iter().filter(|l| matches!(l["op"].as_str(), Some("run" | "succ" | "complete"))).count() as u64);
+    s.add("storage.completed_transactions", completes as u64);
+    s.add("storage.flushes_finished", flushes_done as u64);
+    if labels.iter().any(|l| l["op"] == "remove") {
+      s.count("storage.scripts_with_remove");
+    }
+    for e in out["exceptions"].as_array().cloned().unwrap_or_default() {
+      s.fail("storage.js-exception", "the simulated browser reported an exception or console.error during a storage script", case, e);
+    }
+    // ---- finder (implementation alone): a flush that finished with Ok means that, for every
+    // path last written with `write_all` before the flush was started, that snapshot or a
+    // later one has had its put request succeed (it is stored or in a succeeded transaction)
+    self.flush_predicate(case, &obs, s);
+    // ---- correspondence with the Lean model
+    let m = drv.call("C27", json!({"op": "sys", "items": labels, "paths": [0, 1, 2]}));
+    if m["ok"] != json!(true) {
+      s.disagree("idb.sys.error", case, json!(null), m);
+      return;
+    }
+    if !m["stuck"].is_null() {
+      let i = m["stuck"].as_u64().unwrap_or(0) as usize;
+      s.disagree("idb.sys.model-rejects-step", case, json!({"step": i, "label": labels.get(i)}), json!({"stuck": i}));
+      return;
+    }
+    let mobs = m["obs"].as_array().cloned().unwrap_or_default();
+    for (i, (a, b)) in obs.iter().zip(mobs.iter()).enumerate() {
+      for key in ["store", "txs", "runnable", "flushes"] {
+        if a[key] != b[key] {
+          s.disagree(&format!("idb.sys.{key}"), case, json!({"step": i, "label": a["label"], key: a[key]}), json!({key: b[key]}));
+          return;
+        }
+      }
+    }
+    let mut files = serde_json::Map::new();
+    for p in ["0", "1", "2"] {
+      files.insert(p.to_string(), out["files"].get(p).cloned().unwrap_or(Value::Null));
+    }
+    if Value::Object(files.clone()) != m["files"] {
+      s.disagree("idb.sys.files", case, Value::Object(files), m["files"].clone());
+    }
+    s.traces_validated += 1;
+  }
+
+  fn flush_predicate(&self, case: &Value, obs: &[Value], s: &mut Summary) {
+    let labels: Vec<&Value> = obs.iter().map(|o| &o["label"]).collect();
+    // paths touched through handles or removed are left out (their snapshots are not literal in the script)
+    let mut tainted = std::collections::BTreeSet::new();
+    for it in case["items"].as_array().cloned().unwrap_or_default() {
+      if matches!(it["op"].as_str(), Some("open_write" | "open_append" | "remove")) {
+        tainted.insert(it["p"].as_u64().unwrap_or(0));
+      }
+    }
+    let mut flush_starts: Vec<usize> = Vec::new();
+    for (i, l) in labels.iter().enumerate() {
+      if l["op"] == "flush_storage" {
+        flush_starts.push(i);
+      }
+    }
+    let mut reported = false;
+    for (f, start) in flush_starts.iter().enumerate() {
+      // first step at which flush f is done with Ok
+      let done_at = obs.iter().position(|o| o["flushes"].get(f).map(|x| x[0] == json!(true) && x[1] == json!(true)).unwrap_or(false));
+      let done_at = match done_at {
+        Some(i) => i,
+        None => continue,
+      };
+      for p in 0u64..3 {
+        if tainted.contains(&p) {
+          continue;
+        }
+        let writes: Vec<(usize, String)> = labels
+          .iter()
+          .enumerate()
+          .filter(|(_, l)| matches!(l["op"].as_str(), Some("write_all" | "atomic_write")) && l["p"].as_u64() == Some(p))
+          .map(|(i, l)| (i, l["d"].as_str().unwrap_or("").to_string()))
+          .collect();
+        // only the receivers created since the previous flush() are taken by this one
+        let prev_start = if f == 0 { 0 } else { flush_starts[f - 1] };
+        let last_before = writes.iter().filter(|(i, _)| i < start && *i >= prev_start).last();
+        let (li, _) = match last_before {
+          Some(x) => x.clone(),
+          None => continue,
+        };
+        let acceptable: Vec<&String> = writes.iter().filter(|(i, _)| *i >= li && *i <= done_at).map(|(_, d)| d).collect();
+        let o = &obs[done_at];
+        let mut have: Vec<String> = Vec::new();
+        if let Some(d) = o["store"].get(p.to_string()).and_then(|d| d.as_str()) {
+          have.push(d.to_string());
+        }
+        for t in o["txs"].as_array().cloned().unwrap_or_default() {
+          if t[2].as_u64() == Some(p) && t[4] == json!(true) {
+            if let Some(d) = t[3].as_str() {
+              have.push(d.to_string());
+            }
+          }
+        }
+        if !have.iter().any(|h| acceptable.contains(&h)) && !reported {
+          reported = true;
+          s.fail(
+            "storage.flush-resolved-before-request-success",
+            "flush() finished with Ok although the snapshot written before it (or a later one) has neither been stored nor had its put request succeed",
+            case,
+            json!({"flush": f, "done_at_step": done_at, "path": p, "acceptable": acceptable, "stored_or_succeeded": have}),
+          );
+        }
+      }
+    }
+  }
+
+  fn run_commit(&self, drv: &mut Driver, case: &Value, s: &mut Summary) {
+    let out = match run_slw(case) {
+      Ok(o) => o,
+      Err(e) => {
+        s.case(case, false);
+        s.disagree("slw.run", case, json!(e), json!(null));
+        return;
+      }
+    };
+    let ncommits = case["commits"].as_array().map(|c| c.len()).unwrap_or(0);
+    let schedules = out["schedules"].as_u64().unwrap_or(0);
+    // every schedule is one evaluation of the property; identify it by (case, schedule)
+    let only = case["only"].as_u64();
+    for i in 0..case["schedules"].as_u64().unwrap_or(0) {
+      if only.map(|o| o != i).unwrap_or(false) {
+        continue;
+      }
+      let mut sub = case.clone();
+      sub["only"] = json!(i);
+      s.case(&sub, ncommits >= 1);
+    }
+    s.add("commit.schedules", schedules);
+    s.add("commit.steps", out["steps"].as_u64().unwrap_or(0));
+    s.add("commit.close_points", out["close_points"].as_u64().unwrap_or(0));
+    s.add("commit.distinct_close_states", out["distinct_close_states"].as_u64().unwrap_or(0));
+    s.add("commit.reopens", out["reopens"].as_u64().unwrap_or(0));
+    s.add(&format!("commit.cases_with_{ncommits}_commits"), 1);
+    if let Some(d) = out["distribution"].as_object() {
+      for (k, v) in d {
+        s.add(&format!("commit.{k}"), v.as_u64().unwrap_or(0));
+      }
+    }
+    // ---- finder: failures of the property on the implementation alone (found by slw)
+    let sig_counts = out["sig_counts"].as_object().cloned().unwrap_or_default();
+    for f in out["failures"].as_array().cloned().unwrap_or_default() {
+      let sig = f["sig"].as_str().unwrap_or("unknown").to_string();
+      let mut sub = case.clone();
+      sub["only"] = f["schedule"].clone();
+      s.fail(&sig, f["what"].as_str().unwrap_or(""), &sub, json!({"strategy": f["strategy"], "observed": f["observed"], "occurrences_in_case": sig_counts.get(&sig)}));
+    }
+    for (sig, n) in sig_counts.iter() {
+      // keep the counts of the summary honest (one `fail` call above per kept example)
+      let kept = out["failures"].as_array().map(|a| a.iter().filter(|f| f["sig"] == json!(sig)).count()).unwrap_or(0) as u64;
+      let extra = n.as_u64().unwrap_or(0).saturating_sub(kept);
+      if extra > 0 {
+        s.n_failures += extra;
+        *s.failure_sigs.entry(sig.clone()).or_insert(0) += extra;
+      }
+    }
+    for nd in out["nondeterministic"].as_array().cloned().unwrap_or_default() {
+      s.fail("reopen.depends-on-more-than-the-stored-files", "two stored images with the same files (up to segment ids) reopen differently", case, nd);
+    }
+    // ---- correspondence 1: recover(model) vs reopen(real) on every distinct abstract image
+    let commits = abstract_commits(ncommits);
+    let expected = out["expected"].as_array().cloned().unwrap_or_default();
+    for im in out["images"].as_array().cloned().unwrap_or_default() {
+      let m = drv.call("C27", json!({"op": "recover", "commits": commits, "store": im["store"]}));
+      let imp = json!({"ok": im["ok"], "contents": im["contents"], "stage": im["stage"]});
+      let agree = match m["class"].as_str() {
+        Some("fresh") => im["ok"] == json!(true) && im["contents"] == json!([]),
+        Some("commit") => {
+          let k = m["k"].as_u64().unwrap_or(0) as usize;
+          im["ok"] == json!(true) && expected.get(k).map(|e| *e == im["contents"]).unwrap_or(false)
+        }
+        Some("broken") => im["ok"] == json!(false),
+        _ => false,
+      };
+      s.count(&format!("commit.image_class.{}", m["class"].as_str().unwrap_or("?")));
+      if !agree {
+        s.disagree("idb.recover", &json!({"case": case, "store": im["store"]}), imp, m);
+      }
+    }
+    // ---- correspondence 2: monitored hypothesis `ordered` on the real completion logs
+    for run in out["runs"].as_array().cloned().unwrap_or_default() {
+      let m = drv.call("C27", json!({"op": "ordered", "commits": commits, "done": run["done"]}));
+      if m["ok"] != json!(true) {
+        s.disagree("idb.ordered.error", case, run.clone(), m);
+        continue;
+      }
+      let ordered = m["ordered"] == json!(true);
+      let unopenable = run["any_unopenable"] == json!(true);
+      s.count(if ordered { "commit.runs_ordered" } else { "commit.runs_not_ordered" });
+      // theorem ordered_prefix_recoverable on the real run: ordered ⇒ every close image reopens
+      if ordered && unopenable {
+        s.disagree("idb.ordered-but-unopenable", case, run.clone(), m.clone());
+      }
+      // model-internal consistency on the real log: prefixes_ok ⇔ no unopenable image
+      if (m["prefixes_ok"] == json!(true)) == unopenable {
+        s.disagree("idb.prefixes-vs-reopen", case, run.clone(), m.clone());
+      }
+      // under the specified transaction order the hypothesis must hold
+      if run["strategy"].as_str().map(|x| x.starts_with("spec")).unwrap_or(false) {
+        if !ordered {
+          s.disagree("idb.monitor.spec-run-not-ordered", case, run.clone(), m.clone());
+        }
+        // ---- correspondence 3: the program model's FIFO run predicts the real completion log
+        let f = drv.call("C27", json!({"op": "fifo", "commits": commits, "yield_after_add": case["yield_after_add"].as_bool().unwrap_or(true)}));
+        if only.is_none() || only == Some(0) {
+          if f["done"] != run["done"] || f["finished"] != json!(true) {
+            s.disagree("idb.fifo-completion-log", case, run["done"].clone(), f);
+          }
+        }
+      }
+      s.traces_validated += 1;
+    }
+  }
+}
+
+impl Prop for C27 {
   fn id(&self) -> &'static str {
     "C27"
   }
   fn rule(&self) -> &'static str {
-    "stub"
+    "two kinds of case, both executed on the unmodified searchlite-wasm/src/wasm.rs (host build against shim crates, simulated IndexedDB, harness-driven executor). commit case = 1-2 (quick) / 1-3 (thorough) batches of 1-3 documents over 4 ids (later batches overwrite), init + add_documents + commit per batch, 170 (quick) / 1250 (thorough) schedules: schedule 0 uses the specified IndexedDB order and the FIFO microtask queue, the others the relaxed adversary (any order of request successes and transaction completions of different keys; delay-set or uniform choice; FIFO or arbitrary order of runnable tasks); one evaluation = one (case, schedule), the page is closed after every step of it and each distinct stored image is reopened with init + match-all search; non-trivial = the case has at least one commit (every schedule then has close points inside a commit). storage case = 40-70 random JsStorage/JsFile operations on 3 paths and 3 handles interleaved with scheduler choices, compared item by item with SL.Idb.sysStep; non-trivial = at least two transactions completed and one flush() finished"
   }
-  fn count(&self, _tier: Tier) -> usize {
-    0
+  fn count(&self, tier: Tier) -> usize {
+    tier.pick(60, 440)
   }
-  fn gen(&self, _rng: &mut Rng, _tier: Tier, _i: usize) -> Value {
-    json!(null)
+  fn gen(&self, rng: &mut Rng, tier: Tier, i: usize) -> Value {
+    // 12 (quick) / 40 (thorough) commit cases, the rest storage scripts
+    let ncommit = tier.pick(12, 40);
+    if i < ncommit {
+      gen_commit(rng, tier)
+    } else {
+      gen_storage(rng, tier)
+    }
   }
-  fn run_case(&self, _drv: &mut Driver, _case: &Value, _s: &mut Summary) {}
+  fn run_case(&self, drv: &mut Driver, case: &Value, s: &mut Summary) {
+    if let Err(e) = slw_binary() {
+      s.case(case, false);
+      s.disagree("slw.build", &json!({"note": "the host build of searchlite-wasm/src/wasm.rs against the shim crates failed"}), json!(e), json!(null));
+      return;
+    }
+    match case["kind"].as_str() {
+      Some("commit") => self.run_commit(drv, case, s),
+      Some("storage") => self.run_storage(drv, case, s),
+      _ => {}
+    }
+  }
+  fn finish(&self, _tier: Tier, s: &mut Summary) {
+    s.exhaustive = false;
+    s.notes.push("schedules are sampled (seeded), not enumerated: one commit alone has 7 independent transactions with two events each; the stored images reached are deduplicated and each distinct one is reopened with the real code".into());
+    s.notes.push("wasm.rs runs unmodified; the shim crates in harness-wasm/shims (JsValue/JsCast/Closure, IndexedDB requests/transactions/events, spawn_local executor) are part of the trusted base".into());
+  }
 }
